@@ -540,30 +540,36 @@ def findInlineQuantity (env : Env) : (fuel : Nat) → (prefixRev : Str) → (res
 
 /-! ### step / text items -/
 
-def inStepText (env : Env) (t : Text) : A α Unit := do
+/-- splitting a step text at the inline quantities (INLINE_QUANTITIES) -/
+def inlineLoop (env : Env) (fuel : Nat) (hay : Str) (items : List Item) (iq : Array (Quantity (Value α))) :
+    List Item × Array (Quantity (Value α)) :=
+  match fuel with
+  | 0 => (items, iq)
+  | fuel + 1 =>
+    match findInlineQuantity (α := α) env (hay.length + 1) [] hay with
+    | some hit =>
+      let items := if hit.before.isEmpty then items else items ++ [.text hit.before]
+      let items := items ++ [.inlineQuantity iq.size]
+      inlineLoop env fuel hit.after items (iq.push hit.q)
+    | none => (if hay.isEmpty then items else items ++ [.text hay], iq)
+
+/-- text inside a step block -/
+def inStepTextStep (env : Env) (t : Text) (items : List Item) : A α Unit := do
   let s ← get
   let txt := t.text
+  if s.defineMode == .components then
+    if txt.any env.cs.alnum then awarn "text-in-components-mode" [t.span]
+  else if env.ext.has Gen.EXT_INLINE_QUANTITIES then
+    let r := inlineLoop env (txt.length + 1) txt items s.inlineQ
+    modify fun s => { s with block := some (BlockBuf.step r.1), inlineQ := r.2 }
+  else
+    modify fun s => { s with block := some (BlockBuf.step (items ++ [Item.text txt])) }
+
+def inStepText (env : Env) (t : Text) : A α Unit := do
+  let s ← get
   match s.block with
-  | some (.step items) =>
-    if s.defineMode == .components then
-      if txt.any env.cs.alnum then awarn "text-in-components-mode" [t.span]
-    else if env.ext.has Gen.EXT_INLINE_QUANTITIES then
-      let rec loop (fuel : Nat) (hay : Str) (items : List Item) (iq : Array (Quantity (Value α))) :
-          List Item × Array (Quantity (Value α)) :=
-        match fuel with
-        | 0 => (items, iq)
-        | fuel + 1 =>
-          match findInlineQuantity (α := α) env (hay.length + 1) [] hay with
-          | some hit =>
-            let items := if hit.before.isEmpty then items else items ++ [.text hit.before]
-            let items := items ++ [.inlineQuantity iq.size]
-            loop fuel hit.after items (iq.push hit.q)
-          | none => (if hay.isEmpty then items else items ++ [.text hay], iq)
-      let (items', iq') := loop (txt.length + 1) txt items s.inlineQ
-      set { s with block := some (BlockBuf.step items'), inlineQ := iq' }
-    else
-      set { s with block := some (BlockBuf.step (items ++ [Item.text txt])) }
-  | some (.text buf) => set { s with block := some (BlockBuf.text (buf ++ txt)) }
+  | some (.step items) => inStepTextStep env t items
+  | some (.text buf) => modify fun s => { s with block := some (BlockBuf.text (buf ++ t.text)) }
   | none => apanic "Content outside block"
 
 def sliceBytes (input : Str) (a b : Nat) : Option Str :=
@@ -584,26 +590,33 @@ def pushItem (it : Item) : A α Unit := do
   | some (.step items) => set { s with block := some (.step (items ++ [it])) }
   | _ => apanic "pushItem outside step"
 
+/-- a component inside a step block -/
+def inStepComponent (env : Env) (input : Str) (ev : Ev α) : A α Unit :=
+  match ev with
+  | .ingredient i => do let idx ← ingredientA env input i; pushItem (.ingredient idx)
+  | .cookware c => do let idx ← cookwareA env input c; pushItem (.cookware idx)
+  | .timer t => do let idx ← timerA env t; pushItem (.timer idx)
+  | _ => apanic "Unexpected event in step"
+
+/-- a component inside a text block (define mode text): its source text is appended -/
+def inTextComponent (input : Str) (ev : Ev α) (buf : Str) : A α Unit := do
+  let s ← get
+  if s.defineMode != .text then apanic "Non text event in text block outside define mode text"
+  let (c, span) : String × Span := match ev with
+    | .ingredient i => ("ingredient", i.span)
+    | .cookware c => ("cookware", c.span)
+    | .timer t => ("timer", t.span)
+    | _ => ("?", ⟨0, 0⟩)
+  awarn s!"component-in-text-mode:{c}" [span]
+  match sliceBytes input span.start span.stop with
+  | some sl => modify fun s => { s with block := some (.text (buf ++ sl)) }
+  | none => apanic "text mode: slice not on a char boundary"
+
 def inBlockComponent (env : Env) (input : Str) (ev : Ev α) : A α Unit := do
   let s ← get
   match s.block with
-  | some (.step _) =>
-    match ev with
-    | .ingredient i => let idx ← ingredientA env input i; pushItem (.ingredient idx)
-    | .cookware c => let idx ← cookwareA env input c; pushItem (.cookware idx)
-    | .timer t => let idx ← timerA env t; pushItem (.timer idx)
-    | _ => apanic "Unexpected event in step"
-  | some (.text buf) =>
-    if s.defineMode != .text then apanic "Non text event in text block outside define mode text"
-    let (c, span) : String × Span := match ev with
-      | .ingredient i => ("ingredient", i.span)
-      | .cookware c => ("cookware", c.span)
-      | .timer t => ("timer", t.span)
-      | _ => ("?", ⟨0, 0⟩)
-    awarn s!"component-in-text-mode:{c}" [span]
-    match sliceBytes input span.start span.stop with
-    | some sl => modify fun s => { s with block := some (.text (buf ++ sl)) }
-    | none => apanic "text mode: slice not on a char boundary"
+  | some (.step _) => inStepComponent env input ev
+  | some (.text buf) => inTextComponent input ev buf
   | none => apanic "Content outside block"
 
 /-! ### `>>` metadata -/
@@ -674,26 +687,34 @@ structure AnalysisResult (α : Type) where
   diags : Array Diag
   panic : Option String
 
-def endBlock (kind : BlockKind) : A α Unit := do
+/-- the content of the block that ends (with the assertions of the `End` event) -/
+def endBlockContent (kind : BlockKind) : A α (Option Content) := do
   let s ← get
-  let newContent : Option Content ← (match s.block with
-    | some (.step items) => do
-      if kind != .step then apanic "End: assert_eq!(kind, Step)"
-      pure (some (Content.step ⟨items, s.stepCounter⟩))
-    | some (.text t) => do
-      if !(kind == .text || s.defineMode == .text) then apanic "End: text block kind assertion"
-      pure (some (Content.text t))
-    | none => do apanic "End event without Start"; pure none)
+  match s.block with
+  | some (.step items) => do
+    if kind != .step then apanic "End: assert_eq!(kind, Step)"
+    pure (some (Content.step ⟨items, s.stepCounter⟩))
+  | some (.text t) => do
+    if !(kind == .text || s.defineMode == .text) then apanic "End: text block kind assertion"
+    pure (some (Content.text t))
+  | none => do apanic "End event without Start"; pure none
+
+/-- after the repair: empty content (a text block without text, a step without items) is not pushed -/
+def Content.isEmptyContent : Content → Bool
+  | .text t => t.isEmpty
+  | .step st => st.items.isEmpty
+
+def pushContent (c : Content) : A α Unit := do
+  let s ← get
+  if (s.defineMode != .components || !c.isStep) && !c.isEmptyContent then
+    modify fun s => { s with
+      stepCounter := if c.isStep then s.stepCounter + 1 else s.stepCounter,
+      cur := { s.cur with content := s.cur.content ++ [c] } }
+
+def endBlock (kind : BlockKind) : A α Unit := do
+  let newContent ← endBlockContent kind
   match newContent with
-  | some c =>
-    -- after the repair: empty content (a text block without text, a step without items) is not pushed
-    let isEmptyContent := match c with
-      | .text t => t.isEmpty
-      | .step st => st.items.isEmpty
-    if (s.defineMode != .components || !c.isStep) && !isEmptyContent then
-      modify fun s => { s with
-        stepCounter := if c.isStep then s.stepCounter + 1 else s.stepCounter,
-        cur := { s.cur with content := s.cur.content ++ [c] } }
+  | some c => pushContent c
   | none => pure ()
   modify fun s => { s with block := none }
 
